@@ -104,12 +104,60 @@ def make_intcase(rng, idx):
                 pscale=1.0, rscale_rel=1.0, ints=True, x=ri(n), P=P, z=ri(m), H=ri(m, n), R=R)
 
 
+def make_zerores(rng, idx):
+    """residual z - H x EXACTLY zero (bit for bit) in the first block or in all blocks: x = 0 and z = 0, H rows of
+    (signed) unit vectors with z copied from the selected prior states, or integer-valued H, x with z = H x."""
+    n, m = rng.randint(1, 4), rng.randint(1, 3)
+    style = rng.choice(['zero', 'select', 'integer'])
+    P = _sym_from_eigs(rng, [10 ** rng.uniform(-1, 1) for _ in range(n)]) * 10 ** rng.uniform(-3, 3)
+    sizes = []
+    left = m
+    while left:
+        k = rng.randint(1, left)
+        sizes.append(k)
+        left -= k
+    R = np.zeros((m, m))
+    o = 0
+    for k in sizes:
+        R[o:o + k, o:o + k] = _sym_from_eigs(rng, [10 ** rng.uniform(-1, 1) for _ in range(k)]) * 10 ** rng.uniform(-3, 3)
+        o += k
+    if style == 'zero':
+        x, H = np.zeros(n), _randn(rng, m, n)
+    elif style == 'select':
+        x = _randn(rng, n) * 10 ** rng.uniform(-2, 2)
+        H = np.zeros((m, n))
+        for i in range(m):
+            H[i, rng.randrange(n)] = rng.choice([1.0, 1.0, -1.0])
+    else:
+        x = np.array([float(rng.randint(-5, 5)) for _ in range(n)])
+        H = np.array([[float(rng.randint(-3, 3)) for _ in range(n)] for _ in range(m)])
+    z = H.dot(x)
+    if np.any(z - H.dot(x)):                       # must be exact
+        x, z = np.zeros(n), np.zeros(m)
+    if len(sizes) > 1 and rng.random() < 0.6:      # only the first block has a zero residual
+        z[sizes[0]:] += _randn(rng, m - sizes[0]) * 10 ** rng.uniform(-1, 1)
+    return dict(idx=idx, n=n, m=m, pkind='zero-residual', hkind=style, sizes=sizes, order=rng.choice(['C', 'F']),
+                pscale=1.0, rscale_rel=1.0, x=x, P=P, z=z, H=H, R=R)
+
+
+SEQ_OPS = ['scalePR', 'newz', 'x0', 'negH', 'scaleR', 'same']
+
+
 def make_case(rng, small=False, idx=0):
+    c = _make_case(rng, small, idx)
+    if c['n'] <= 6 and rng.random() < 0.25:         # calls in a row on the same buffers, mutated in place
+        c['seq'] = [rng.choice(SEQ_OPS) for _ in range(rng.randint(1, 3))]
+    return c
+
+
+def _make_case(rng, small=False, idx=0):
     u = rng.random()
     if u < 0.15:
         return make_dynrange(rng, idx)
     if u < 0.22:
         return make_intcase(rng, idx)
+    if u < 0.32:
+        return make_zerores(rng, idx)
     n = rng.randint(1, 4) if small else rng.choice([1, 2, 3, 4, 5, 6, 8, 10, 12, 15, 17, 20])
     m = rng.randint(1, 3) if small else rng.randint(1, 6)
     pk = rng.choice(['well', 'well', 'ill', 'rankdef', 'zero', 'diag'])
@@ -293,7 +341,7 @@ def check_case(c, exact=None, verbose=False, stats=None):
         ratio = err / tol if tol > 0 else (0.0 if err == 0 else math.inf)
         worst[0] = max(worst[0], ratio)
         if stats is not None:
-            k = what.split(' (')[0]
+            k = what.split(' (')[0] + (': ' + what.split('): ')[-1] if what.startswith('call sequence') else '')
             stats[k] = max(stats.get(k, 0.0), ratio if math.isfinite(ratio) else 1e300)
         if verbose:
             print(f"  {what}: error {err:.3e}  tolerance {tol:.3e}")
@@ -410,13 +458,45 @@ def check_case(c, exact=None, verbose=False, stats=None):
                         float(np.abs(Ps_ - cov_ref).max()), bound_c + sc['b_cov'], order=list(perm))
                     cmp(f"sequential mean (block order {perm}) != joint",
                         float(np.abs(xs - mean_ref).max()), bound_m + sc['b_mean'], order=list(perm))
+    # (6) calls in a row on the SAME buffers, mutated in place in between: the result depends only on the
+    #     current argument values
+    if c.get('seq'):
+        bufs = [np.array(a, dtype=float, order=c.get('order', 'C')) for a in (x, P, z, H, R)]
+        try:
+            kalman.correct(*bufs)
+            for k, op in enumerate(c['seq']):
+                xb, Pb, zb, Hb, Rb = bufs
+                if op == 'scalePR':
+                    Pb *= 4.0
+                    Rb *= 4.0
+                elif op == 'newz':
+                    zb += (1.0 + np.arange(len(zb))) * (1.0 + float(np.abs(zb).max()))
+                elif op == 'x0':
+                    xb[:] = 0.0
+                elif op == 'negH':
+                    Hb *= -1.0
+                elif op == 'scaleR':
+                    Rb *= 0.25
+                o2 = kalman.correct(*bufs)
+                s2 = _scales(*bufs)
+                mref = xb + s2['K'] @ s2['e']
+                cref = Pb - s2['K'] @ Hb @ Pb
+                lab = f"call sequence (buffers updated in place: {'+'.join(c['seq'][:k + 1])}): "
+                cmp(lab + "posterior mean != conditional mean of the current arguments",
+                    float(np.abs(np.asarray(o2[0], float) - mref).max()), 2 * s2['b_mean'])
+                cmp(lab + "posterior covariance != conditional covariance of the current arguments",
+                    float(np.abs(np.asarray(o2[1], float) - (cref + cref.T) / 2).max()), 2 * s2['b_cov'])
+                cmp(lab + "innovation != whitened residual of the current arguments",
+                    float(np.abs(np.asarray(o2[2], float) - s2['nu']).max()), s2['b_nu'])
+        except Exception as ex:
+            fails.append((f"call sequence {c['seq']}: correct raised {type(ex).__name__}: {str(ex)[:160]}", {}))
     return fails, worst[0]
 
 
 # ---------------------------------------------------------------------------
 
 def _hexcase(c):
-    out = {k: c[k] for k in ('idx', 'n', 'm', 'pkind', 'hkind', 'sizes', 'order', 'pscale', 'rscale_rel', 'exact_nmax', 'ints') if k in c}
+    out = {k: c[k] for k in ('idx', 'n', 'm', 'pkind', 'hkind', 'sizes', 'order', 'pscale', 'rscale_rel', 'exact_nmax', 'ints', 'seq') if k in c}
     for k in 'xPzHR':
         a = np.asarray(c[k], dtype=float)
         out[k] = [float(v).hex() for v in a.ravel()]
